@@ -946,6 +946,27 @@ func TestPairingLaws(t *testing.T) {
 		P2 := new(bn.G1).ScalarBaseMult(new(big.Int).Add(new(big.Int).Mod(b, order), big.NewInt(1)))
 		sum := new(bn.G1).Add(&P, P2)
 		gtEq(t, "e(P+P',Q) vs e(P,Q)e(P',Q)", bn.Pair(sum, Q), new(bn.GT).Add(base, bn.Pair(P2, Q)), true)
+		// negation: e(-P,Q) = e(P,-Q) = e(P,Q)^-1, and the pairing is a function of the group elements, however the
+		// point objects were produced (computed, negated, parsed from their own encoding)
+		inv := new(bn.GT).Neg(base)
+		negP, negQ := new(bn.G1).Neg(&P), new(bn.G2).Neg(Q)
+		gtEq(t, "e(-P,Q) vs e(P,Q)^-1", bn.Pair(negP, Q), inv, true)
+		gtEq(t, "e(P,-Q) vs e(P,Q)^-1 (Q negated with G2.Neg)", bn.Pair(&P, negQ), inv, true)
+		parsedQ, parsedNegQ, parsedP := new(bn.G2), new(bn.G2), new(bn.G1)
+		if _, err := parsedQ.Unmarshal(Q.Marshal()); err != nil {
+			t.Fatalf("G2 does not parse its own encoding: %v", err)
+		}
+		if _, err := parsedNegQ.Unmarshal(negQ.Marshal()); err != nil {
+			t.Fatalf("G2 does not parse the encoding of a negated point: %v", err)
+		}
+		if _, err := parsedP.Unmarshal(P.Marshal()); err != nil {
+			t.Fatalf("G1 does not parse its own encoding: %v", err)
+		}
+		gtEq(t, "e(P,Q) vs e(P, parsed Q)", base, bn.Pair(&P, parsedQ), true)
+		gtEq(t, "e(P,Q) vs e(parsed P, Q)", base, bn.Pair(parsedP, Q), true)
+		gtEq(t, "e(P,-Q) with -Q parsed from its encoding vs e(P,Q)^-1", bn.Pair(&P, parsedNegQ), inv, true)
+		gtEq(t, "e(P,-(parsed Q)) vs e(P,Q)^-1", bn.Pair(&P, new(bn.G2).Neg(parsedQ)), inv, true)
+		gtEq(t, "e(-(parsed P),Q) vs e(P,Q)^-1", bn.Pair(new(bn.G1).Neg(parsedP), Q), inv, true)
 		// distinct values compare unequal, wherever they differ
 		gtEq(t, "e(P,Q) vs e(2P,Q)", base, bn.Pair(new(bn.G1).Add(&P, &P), Q), false)
 		mb := base.Marshal()
